@@ -526,6 +526,37 @@ class Check:
         return 1 if self.violations else 0
 
 
+class Only:
+    """A view of a Check that lets a rule module run for another property: only the listed rule ids register, count and report."""
+
+    def __init__(self, chk_, allow):
+        self.__dict__["c"] = chk_
+        self.__dict__["allow"] = set(allow)
+
+    def __getattr__(self, k):
+        return getattr(self.c, k)
+
+    def __setattr__(self, k, v):
+        setattr(self.c, k, v)
+
+    def rule(self, rid, desc, floor=0):
+        if rid in self.allow:
+            return self.c.rule(rid, desc, floor)
+        return rid
+
+    def instance(self, rid, *a, **kw):
+        if rid in self.allow:
+            self.c.instance(rid, *a, **kw)
+
+    def violation(self, rid, *a, **kw):
+        if rid in self.allow:
+            self.c.violation(rid, *a, **kw)
+
+    def info(self, rid, *a, **kw):
+        if rid in self.allow:
+            self.c.info(rid, *a, **kw)
+
+
 TOUCHED = set()      # (q, file, l, l_end) of every function a rule asked for by name (tool/neutral.py uses it)
 TOUCHED_Q = set()    # qualified names of functions that carry rule instances
 
